@@ -510,3 +510,114 @@ theorem race_free (wg : WellGuarded g) {s : St} (r : Reach g s) (tw tr : Tid) (l
 
 
 end Bip39V.Conc
+
+namespace Bip39V.Conc
+variable {g : Lang → Guard}
+
+/-- second invariant: a cell that is done has seen a write by some arm using it; a thread that has
+built has logged its write -/
+structure Inv2 (g : Lang → Guard) (s : St) : Prop where
+  done_written : ∀ o, s.once o = .done → ∃ t l, (g l).cell = o ∧ Ev.write t l ∈ s.trace
+  built_written : ∀ t l, s.pc t = .built l → Ev.write t l ∈ s.trace
+
+theorem inv2_init : Inv2 g init := by
+  constructor <;> simp [init]
+
+theorem inv2_step {s s' : St} (inv : Inv2 g s) (st : Step g s s') : Inv2 g s' := by
+  cases st with
+  | call t l h =>
+    constructor
+    · exact inv.done_written
+    · intro t' l' hpc
+      dsimp only at hpc ⊢
+      by_cases ht : t' = t
+      · subst ht; simp at hpc
+      · rw [upd_ne _ _ ht] at hpc; exact inv.built_written t' l' hpc
+  | becomeRunner t l h ho =>
+    constructor
+    · intro o hoo
+      dsimp only at hoo ⊢
+      by_cases hc : o = (g l).cell
+      · subst hc; simp at hoo
+      · rw [upd_ne _ _ hc] at hoo
+        obtain ⟨t', l', h1, h2⟩ := inv.done_written o hoo
+        exact ⟨t', l', h1, by simp [h2]⟩
+    · intro t' l' hpc
+      dsimp only at hpc ⊢
+      by_cases ht : t' = t
+      · subst ht; simp at hpc
+      · rw [upd_ne _ _ ht] at hpc; simp [inv.built_written t' l' hpc]
+  | observeDone t l h ho =>
+    constructor
+    · intro o hoo
+      dsimp only at hoo ⊢
+      obtain ⟨t', l', h1, h2⟩ := inv.done_written o hoo
+      exact ⟨t', l', h1, by simp [h2]⟩
+    · intro t' l' hpc
+      dsimp only at hpc ⊢
+      by_cases ht : t' = t
+      · subst ht; simp at hpc
+      · rw [upd_ne _ _ ht] at hpc; simp [inv.built_written t' l' hpc]
+  | build t l h =>
+    constructor
+    · intro o hoo
+      dsimp only at hoo ⊢
+      obtain ⟨t', l', h1, h2⟩ := inv.done_written o hoo
+      exact ⟨t', l', h1, by simp [h2]⟩
+    · intro t' l' hpc
+      dsimp only at hpc ⊢
+      by_cases ht : t' = t
+      · subst ht; simp at hpc; subst hpc; simp
+      · rw [upd_ne _ _ ht] at hpc; simp [inv.built_written t' l' hpc]
+  | finish t l h =>
+    constructor
+    · intro o hoo
+      dsimp only at hoo ⊢
+      by_cases hc : o = (g l).cell
+      · subst hc
+        exact ⟨t, l, rfl, by simp [inv.built_written t l h]⟩
+      · rw [upd_ne _ _ hc] at hoo
+        obtain ⟨t', l', h1, h2⟩ := inv.done_written o hoo
+        exact ⟨t', l', h1, by simp [h2]⟩
+    · intro t' l' hpc
+      dsimp only at hpc ⊢
+      by_cases ht : t' = t
+      · subst ht; simp at hpc
+      · rw [upd_ne _ _ ht] at hpc; simp [inv.built_written t' l' hpc]
+  | runnerReturn t l h =>
+    constructor
+    · intro o hoo
+      dsimp only at hoo ⊢
+      obtain ⟨t', l', h1, h2⟩ := inv.done_written o hoo
+      exact ⟨t', l', h1, by simp [h2]⟩
+    · intro t' l' hpc
+      dsimp only at hpc ⊢
+      by_cases ht : t' = t
+      · subst ht; simp at hpc
+      · rw [upd_ne _ _ ht] at hpc; simp [inv.built_written t' l' hpc]
+  | readMap t l h =>
+    constructor
+    · intro o hoo
+      dsimp only at hoo ⊢
+      obtain ⟨t', l', h1, h2⟩ := inv.done_written o hoo
+      exact ⟨t', l', h1, by simp [h2]⟩
+    · intro t' l' hpc
+      dsimp only at hpc ⊢
+      by_cases ht : t' = t
+      · subst ht; simp at hpc
+      · rw [upd_ne _ _ ht] at hpc; simp [inv.built_written t' l' hpc]
+
+theorem inv2_reach {s : St} (r : Reach g s) : Inv2 g s := by
+  induction r with
+  | init => exact inv2_init
+  | step _ st ih => exact inv2_step ih st
+
+/-- every read is preceded by a write from an arm that uses the same once cell -/
+theorem read_has_write {s : St} (r : Reach g s) (tr : Tid) (lr : Lang) (hr : Ev.read tr lr ∈ s.trace) :
+    ∃ tw lw, (g lw).cell = (g lr).cell ∧ Ev.write tw lw ∈ s.trace := by
+  have inv := inv_reach r
+  have hb := inv.read_ok tr lr hr
+  have hdone := (inv.ret_after tr _ (mem_of_before_left hb)).1
+  exact (inv2_reach r).done_written _ hdone
+
+end Bip39V.Conc
